@@ -257,4 +257,44 @@ func init() {
 			"the 'decodes back to the same JSON value' clause (needs the decoder)", "a change to a different encoder API is reported INCONCLUSIVE, not pass"},
 		Intrinsics: []string{"encoding/json.Marshal for dynamic type string = appendString[string](nil, v, true) from stdlib SSA", "fmt.Sprintf with %s", "regexp MatchString"},
 	})
+
+	ampOK := func(p map[string]int) bool { return p["amp"] < p["np"] && (p["amp"] != -2 || p["np"] >= 3) }
+	reg(&Prop{
+		ID:    "C14",
+		Title: "Data interpolated after a static URL prefix stays inside its URL component",
+		Harnesses: []HarnessSpec{
+			{Pkg: "template", Name: "vHarness_C14_prefix", Quick: []ParamRange{{"ctx", 0, 5}, {"amp", -1, -1}, {"np", 1, 8}}, Thorough: []ParamRange{{"ctx", 0, 5}, {"amp", -1, -1}, {"np", 1, 10}}, Reach: []string{"accepted", "rejected"},
+				Desc: "prefixes without '&' in 6 URL contexts: accepted => no whitespace/control, no partial percent escape, scheme decided and not javascript (per WHATWG scanner), '/?#' or complete scheme present"},
+			{Pkg: "template", Name: "vHarness_C14_prefix", Quick: []ParamRange{{"ctx", 0, 3}, {"amp", 0, 0}, {"np", 1, 4}}, Thorough: []ParamRange{{"ctx", 0, 3}, {"amp", 0, 1}, {"np", 1, 5}},
+				Filter: func(p map[string]int) bool { return (p["ctx"] == 0 || p["ctx"] == 3) && ampOK(p) },
+				Desc: "prefixes with exactly one '&' at a fixed index (character references decoded by the real html.UnescapeString from stdlib SSA)"},
+			{Pkg: "template", Name: "vHarness_C14_prefix", Quick: []ParamRange{{"ctx", 0, 0}, {"amp", -3, -3}, {"np", 4, 6}}, Thorough: []ParamRange{{"ctx", 0, 3}, {"amp", -2, -2}, {"np", 3, 7}},
+				Filter: func(p map[string]int) bool { return p["ctx"] == 0 || p["ctx"] == 3 },
+				Desc: "prefix is one complete character reference &X;"},
+			{Pkg: "template", Name: "vHarness_C14_data", Quick: []ParamRange{{"ctx", 0, 5}, {"amp", -1, -1}, {"np", 1, 4}, {"nd", 0, 2}}, Thorough: []ParamRange{{"ctx", 0, 5}, {"amp", -1, -1}, {"np", 1, 6}, {"nd", 0, 3}},
+				Filter: func(p map[string]int) bool { return p["ctx"] != 1 && p["ctx"] != 2 }, Reach: []string{"tru", "query", "path"},
+				Desc: "accepted prefix without '&' + data: TrustedResourceURL contexts fully percent-encode and reject '..'; query/fragment prefixes fully percent-encode; otherwise reference normalisation + HTML escaping; no '..' segment with data-derived bytes"},
+			{Pkg: "template", Name: "vHarness_C14_data", Quick: []ParamRange{{"ctx", 0, 0}, {"amp", -3, -3}, {"np", 4, 6}, {"nd", 1, 2}}, Thorough: []ParamRange{{"ctx", 0, 0}, {"amp", -2, -2}, {"np", 3, 7}, {"nd", 1, 2}},
+				Filter: func(p map[string]int) bool { return p["np"] < 7 || p["nd"] == 1 },
+				Desc: "prefix is one complete character reference &X; (reaches &num; &#63; &quest;)"},
+			{Pkg: "template", Name: "vHarness_C14_idempotent", Quick: []ParamRange{{"n", 0, 4}}, Thorough: []ParamRange{{"n", 0, 6}}, Reach: []string{"ran"},
+				Desc: "NormalizeURL(NormalizeURL(d)) == NormalizeURL(d) == reference; QueryEscapeURL == reference encoder"},
+		},
+		Probes: []ProbeSpec{
+			{Pkg: "template", Name: "vProbe_C14_chain", NArgs: 3, Alphabet: "ajs:/?#&;x93652%e.qut=A \"<>'", MaxLen: 9, N: 2500, TestDir: "template",
+				Extra: []string{"/x&quest;q=", "&#63;", "&num;", "javascript&colon;", "/js/.", "https://a/", "//a/b?", "/a&#x9;", "a&colon;", ".", "..", "%2e%2E", "1&admin=1#f", "%41%zz%"}},
+			{Pkg: "template", Name: "vProbe_C14_unescape", NArgs: 1, Alphabet: "&#;x0123456789abcdefquestnmlpg", MaxLen: 9, N: 1500, Extra: []string{"&amp", "&amp;", "&quest;", "&#63;", "&#x3f;", "&#X3F", "&lt", "&ltx", "&notit;", "&#0;", "&#x110000;", "&#xD800;", "&#128;"}},
+		},
+		Functions: []string{"template.sanitizerForContext", "template.sanitizersForAttributeValue", "template.sanitizationContextForAttrVal", "template.validateURLPrefix", "template.validateTrustedResourceURLPrefix", "template.decodeURLPrefix",
+			"template.validateDoesNotEndsWithCharRefPrefix", "template.validateTrustedResourceURLSubstitution", "template.sanitizeHTML", "safehtmlutil.NormalizeURL", "safehtmlutil.QueryEscapeURL", "safehtmlutil.urlProcessor", "safehtmlutil.isHex",
+			"safehtmlutil.URLContainsDoubleDotSegment", "safehtmlutil.IsSafeTrustedResourceURLPrefix", "safehtml.URLSanitized", "safehtml.HTMLEscaped", "html.UnescapeString / unescapeEntity with the real entity tables (stdlib SSA; also the oracle for 'what the browser sees')",
+			"the policy tables and the five prefix patterns from the current source"},
+		Bounds: map[string]string{
+			"quick":    "6 URL contexts (a/href, img/src, form/action, script/src, link/href with rel=stylesheet and rel=icon); ASCII prefixes: without '&' 1..8 bytes, with one '&' at index 0 up to 4 bytes, decimal references &#d..; of 4..6 bytes; data 0..2 arbitrary bytes after prefixes of 1..4 bytes (and after the decimal references); normaliser/encoder: every byte string of length 0..4",
+			"thorough": "prefixes without '&' up to 10 bytes, with one '&' (index 0 or 1) up to 5, &X; up to 7 (reaches &quest;); data 0..3 bytes after prefixes up to 6; normaliser/encoder up to 6 bytes",
+		},
+		Outside: []string{"prefixes with two or more character references beyond the stated lengths", "non-ASCII bytes in the static prefix", "single-quoted values (same chain)", "attr.ambiguousValue (conditional prefixes)"},
+		Assumes:    []string{"html.UnescapeString is both executed for the implementation and used as the oracle for the decoded prefix (Go's entity table is the WHATWG table)"},
+		Intrinsics: []string{"safehtmlutil.Indirect / indirectToStringerOrError on the dynamic types string and the safe types", "fmt.Sprint, fmt.Fprintf %%%02x", "regexp MatchString / FindStringSubmatch", "strings.ContainsAny, strings.Fields (concrete)"},
+	})
 }
